@@ -112,6 +112,16 @@ def run_e1_piece(modname, ob, tier, seed, k, n):
     return res
 
 
+def run_fn_worker(modname, fname, tier, seed, timeout):
+    """run harness function `fname(tier=, seed=, nproc=)` in the overlay interpreter (z3 / cvc5 live there)"""
+    cmd = [VENV_PY, '-m', 'vlib.fnworker', modname, fname, str(NPROC)]
+    r = subprocess.run(cmd, cwd=VERIF, env=worker_env(tier, seed, '0/1'), capture_output=True, text=True, timeout=timeout)
+    for ln in r.stdout.splitlines():
+        if ln.startswith('@@RESULT '):
+            return json.loads(ln[len('@@RESULT '):])
+    return {'status': 'error', 'message': 'no result from %s.%s rc=%s: %s' % (modname, fname, r.returncode, (r.stderr or r.stdout)[-1500:])}
+
+
 REPLAY_TMPL = '''#!/venv/bin/python
 # Replay of a counterexample for property {prop}, obligation {ob} ({engine}).
 # Runs the harness obligation CONCRETELY on the solver's input against the library in {repo!r}
@@ -238,7 +248,10 @@ def main():
             continue
         t0 = time.time()
         try:
-            r = ob['run'](tier=tier, seed=seed, nproc=NPROC)
+            if 'worker' in ob:
+                r = run_fn_worker(modname, ob['worker'], tier, seed, ob.get('timeout', 3600))
+            else:
+                r = ob['run'](tier=tier, seed=seed, nproc=NPROC)
         except Exception as e:  # noqa
             import traceback
             r = {'status': 'error', 'message': '%s: %s' % (type(e).__name__, e), 'traceback': traceback.format_exc()[-2000:]}
